@@ -52,7 +52,7 @@ func checkC02(c *Ctx) {
 	r.Rule("C02.b", "constraint collection, type-variable collection and substitution visit every sub-expression on every path (TRAV)", 20)
 	r.Rule("C02.c", "closed forms of the numbering chain, anchor unifications and fresh instantiation", 15)
 	r.Rule("C02.d", "result annotation feeds the function's own type (declared and returned)", 2)
-	r.Rule("C02.f", "visited sets of the FType traversals guard recursion only: inserted under their own membership test, removed when the guarded subtree is done, type arguments traversed outside", 6)
+	r.Rule("C02.f", "each record/union instance is handled once per traversal and correctly: instance keys; a never-cleared visited set only where a repeated instance contributes the empty list; memo tables follow the placeholder discipline (hit returns the stored value, miss stores the input first and its result last)", 15)
 	r.Import("C15.", "C02.g", "the inferred types are printed by the documented type mapping (the C15 conditions: base-type table, printer templates, grammar of annotations)", 20, func() { checkC15(c) })
 	r.Rule("C02.e", "no unification obligation is dropped: every call result carrying a []UniRel is bound, returned or passed on", 40)
 	f := c.LoadFC("fc")
